@@ -292,6 +292,13 @@ func rewrite(path string, sp fileSpec) error {
 		case *ast.GenDecl:
 			if sp.chans {
 				ast.Inspect(dd, func(n ast.Node) bool { r.chanTypesIn(n); return true })
+				for _, spec := range dd.Specs {
+					if vs, ok := spec.(*ast.ValueSpec); ok {
+						for i := range vs.Values {
+							vs.Values[i] = r.expr(vs.Values[i])
+						}
+					}
+				}
 			}
 		}
 	}
